@@ -93,6 +93,9 @@ type replicateChannelManager struct {
 
 	droppedCollections util.Map[int64, struct{}]
 	droppedPartitions  util.Map[int64, struct{}]
+	// forwardHandlers remembers the handler that takes the forwarded packs of a target channel: several handlers can
+	// write to one target channel, and the packs of a stream keep their order only if they all go through the same one
+	forwardHandlers util.Map[string, *replicateChannelHandler]
 
 	addCollectionLock *deadlock.RWMutex
 	addCollectionCnt  *int
@@ -852,13 +855,26 @@ func (r *replicateChannelManager) forwardMsg(targetPChannel string, msg *api.Rep
 		r.channelLock.RLock()
 		defer r.channelLock.RUnlock()
 
+		if forwardHandler, ok := r.forwardHandlers.Load(targetPChannel); ok {
+			handler = forwardHandler
+			return nil
+		}
 		sourceKey := r.channelMapping.UsingSourceKey()
 		for _, channelHandler := range r.channelHandlerMap {
 			if (sourceKey && channelHandler.targetPChannel == targetPChannel) ||
 				(!sourceKey && channelHandler.sourcePChannel == targetPChannel) {
+				select {
+				case <-channelHandler.startReadChan:
+				default:
+					// the handler is still waiting for a channel, this one is only the channel it asked for
+					continue
+				}
 				handler = channelHandler
 				break
 			}
+		}
+		if handler != nil {
+			handler, _ = r.forwardHandlers.LoadOrStore(targetPChannel, handler)
 		}
 		if handler == nil {
 			select {
